@@ -2,6 +2,7 @@
   `handleRequest` and `updateTX` preserve the structural invariant `Inv0`.
 -/
 import ScionTime.Proofs.ServerInv
+import ScionTime.Proofs.ServerScan2
 namespace ScionTime.Server
 open ScionTime.Time64
 
@@ -237,5 +238,167 @@ theorem inv0_handleRequestG (strict : Bool) (cap icap : Nat) (hcap : 1 ≤ cap) 
           rw [Map.find_cons] at h1
           simp only [e, if_false] at h1
           rw [← h2, ← h3]; exact i1 k it0 h1
+
+
+/-! ### updateTX -/
+
+theorem itemsOk_update (icap : Nat) (m m1 : Map) (id : Nat) (it : Item) (q' : T64)
+    (g : List Entry → List Entry) (ok : ItemsOk icap m) (hit : m.find id = some it)
+    (s1 : Same (setQval m id q') m1) (hnew : ItemOk icap id (g it.buf) q') :
+    ItemsOk icap (setBuf m1 id g) := by
+  intro k it2 hf
+  rw [find_setBuf] at hf
+  by_cases e : id = k
+  · subst e
+    simp only [if_true] at hf
+    cases hf1 : Map.find m1 id with
+    | none => simp [hf1] at hf
+    | some it1 =>
+      simp only [hf1, Option.map_some, Option.some.injEq] at hf
+      subst hf
+      have hs := s1 id
+      rw [find_setQval, hf1] at hs
+      simp only [if_true, hit, Option.map_some, core, Option.some.injEq, Prod.mk.injEq] at hs
+      simp only
+      rw [← hs.1, ← hs.2]
+      exact hnew
+  · simp only [e, if_false] at hf
+    obtain ⟨it0, h1, h2, h3⟩ := same_find s1 hf
+    rw [find_setQval] at h1
+    simp only [e, if_false] at h1
+    rw [← h2, ← h3]; exact ok k it0 h1
+
+theorem set_eq_self_of_getElem? {α} : ∀ (l : List α) (i : Nat) (a : α), l[i]? = some a → l.set i a = l := by
+  intro l
+  induction l with
+  | nil => intro i a h; simp at h
+  | cons b l ih =>
+    intro i a h
+    cases i with
+    | zero => simp at h; subst h; rfl
+    | succ i => simp at h; simp [ih i a h]
+
+theorem set_tx_ok (icap id : Nat) (buf : List Entry) (q : T64) (ok : ItemOk icap id buf q)
+    (x : Nat) (ex : Entry) (hx : buf[x]? = some ex) (t : T64) :
+    ItemOk icap id (buf.set x { ex with tx := t }) q := by
+  have hmem : ex ∈ buf := List.mem_of_getElem? hx
+  refine ⟨by rw [List.length_set]; exact ok.len_pos, by rw [List.length_set]; exact ok.len_le, ?_, ?_, ?_⟩
+  · rw [List.map_set]
+    rw [set_eq_self_of_getElem? _ _ _ (by simp [hx])]
+    exact ok.distinct
+  · intro e he
+    rcases List.mem_or_eq_of_mem_set he with he | he
+    · exact ok.qval_ge e he
+    · subst he; exact ok.qval_ge ex hmem
+  · intro e he
+    rcases List.mem_or_eq_of_mem_set he with he | he
+    · exact ok.owner e he
+    · subst he; exact ok.owner ex hmem
+
+theorem utx_fix_spec (st : State) (h : WF st) (id : Nat) (it : Item) (hit : st.items.find id = some it)
+    (m0 m1 : Option (Nat × T64)) (rxt64 : T64) :
+    ∃ q', WF (utxFix st id it.qidx m0 m1 rxt64) ∧
+      (utxFix st id it.qidx m0 m1 rxt64).items.length = st.items.length ∧
+      (utxFix st id it.qidx m0 m1 rxt64).heap.size = st.heap.size ∧
+      Same (setQval st.items id q') (utxFix st id it.qidx m0 m1 rxt64).items ∧
+      ((q' = it.qval ∧ utxFix st id it.qidx m0 m1 rxt64 = st) ∨
+       (∃ i0 i1, m0 = some (i0, rxt64) ∧ m1 = some (i1, q') ∧
+          utxFix st id it.qidx m0 m1 rxt64 = fixQval st id q' it.qidx)) := by
+  have dflt : utxFix st id it.qidx m0 m1 rxt64 = st →
+      ∃ q', WF (utxFix st id it.qidx m0 m1 rxt64) ∧
+      (utxFix st id it.qidx m0 m1 rxt64).items.length = st.items.length ∧
+      (utxFix st id it.qidx m0 m1 rxt64).heap.size = st.heap.size ∧
+      Same (setQval st.items id q') (utxFix st id it.qidx m0 m1 rxt64).items ∧
+      ((q' = it.qval ∧ utxFix st id it.qidx m0 m1 rxt64 = st) ∨
+       (∃ i0 i1, m0 = some (i0, rxt64) ∧ m1 = some (i1, q') ∧
+          utxFix st id it.qidx m0 m1 rxt64 = fixQval st id q' it.qidx)) := by
+    intro e
+    rw [e]
+    exact ⟨it.qval, h, rfl, rfl, same_setQval_self _ _ _ hit, Or.inl ⟨rfl, rfl⟩⟩
+  cases m0 with
+  | none => exact dflt (by simp [utxFix])
+  | some p0 =>
+    obtain ⟨i0, v0⟩ := p0
+    cases m1 with
+    | none => exact dflt (by simp [utxFix])
+    | some p1 =>
+      obtain ⟨i1, v1⟩ := p1
+      by_cases hv : v0 = rxt64
+      · have e : utxFix st id it.qidx (some (i0, v0)) (some (i1, v1)) rxt64 = fixQval st id v1 it.qidx := by
+          simp [utxFix, hv]
+        rw [e]
+        obtain ⟨a, b, c, d⟩ := fixQval_spec st h id it hit v1
+        exact ⟨v1, a, c, b, d, Or.inr ⟨i0, i1, by rw [hv], rfl, rfl⟩⟩
+      · exact dflt (by simp [utxFix, hv])
+
+theorem inv0_updateTX (cap icap : Nat) (st : State) (inv : Inv0 cap icap st) (id : Nat)
+    (rxt txt1 : Int) : Inv0 cap icap (updateTX st id rxt txt1).1 := by
+  unfold updateTX
+  simp only
+  split
+  · exact inv
+  · rename_i it hit
+    have ok := inv.items id it hit
+    generalize (if ¬ rxt < txt1 then rxt + 1 else txt1) = txt
+    have s2 := scan2_inv it.buf (ofTime rxt)
+    generalize scan2 it.buf (ofTime rxt) = sc at s2 ⊢
+    split
+    · exact inv
+    · rename_i x hx
+      have hxs := s2.x_some x hx
+      have hxl : x < it.buf.length := by
+        rcases Nat.lt_or_ge x it.buf.length with c | c
+        · exact c
+        · rw [List.getElem?_eq_none c] at hxs; cases hxs
+      have hxe : it.buf[x]? = some (it.buf.getD x defaultEntry) := by
+        rw [List.getD_eq_getElem?_getD, List.getElem?_eq_getElem hxl]; rfl
+      have hxrx : (it.buf[x]).rx = ofTime rxt := by
+        rw [List.getElem?_eq_getElem hxl] at hxs; simpa using hxs
+      split
+      · -- the transmit time is replaced
+        refine ⟨wf_modify st inv.wf id _ (fun _ => rfl), ?_, ?_⟩
+        · simp only [setBuf, Map.length_modify]; exact inv.size
+        · exact itemsOk_update icap st.items st.items id it it.qval
+            (fun b => b.set x { (it.buf.getD x defaultEntry) with tx := ofTime txt }) inv.items hit
+            (same_setQval_self _ _ _ hit) (set_tx_ok icap id it.buf it.qval ok x _ hxe _)
+      · split
+        · -- the whole item is removed
+          obtain ⟨a, b, c, d⟩ := remove_spec st inv.wf id it hit
+          simp only
+          refine ⟨a, by have := inv.size; omega, ?_⟩
+          intro k it' hf
+          have hk : k ≠ id := by intro e; rw [e, d] at hf; cases hf
+          have := c k hk
+          rw [hf] at this
+          cases hf0 : Map.find st.items k with
+          | none => simp [hf0] at this
+          | some it0 =>
+            simp only [hf0, Option.map_some, core, Option.some.injEq, Prod.mk.injEq] at this
+            rw [this.1, this.2]; exact inv.items k it0 hf0
+        · -- one exchange is removed
+          rename_i hlen1
+          obtain ⟨q', w1, l1, _, s1, hq'⟩ := utx_fix_spec st inv.wf id it hit sc.m0 sc.m1 (ofTime rxt)
+          replace hq' : q' = it.qval ∨ ∃ i0 i1, sc.m0 = some (i0, ofTime rxt) ∧ sc.m1 = some (i1, q') := by
+            rcases hq' with ⟨a, _⟩ | ⟨i0, i1, a, b, _⟩
+            · exact Or.inl a
+            · exact Or.inr ⟨i0, i1, a, b⟩
+          generalize utxFix st id it.qidx sc.m0 sc.m1 (ofTime rxt) = st1 at w1 l1 s1 ⊢
+          refine ⟨wf_modify st1 w1 id _ (fun _ => rfl), ?_, ?_⟩
+          · simp only [setBuf, Map.length_modify, l1]; exact inv.size
+          · refine itemsOk_update icap st.items st1.items id it q' (fun b => swapRemove b x) inv.items hit s1 ?_
+            show ItemOk icap id (swapRemove it.buf x) q'
+            have hlp := ok.len_pos
+            refine ⟨by rw [length_swapRemove _ _ hxl]; omega,
+              by rw [length_swapRemove _ _ hxl]; have := ok.len_le; omega,
+              nodup_swapRemove _ _ hxl ok.distinct, ?_, ?_⟩
+            · intro e he
+              obtain ⟨hm, hne⟩ := rx_ne_of_mem_swapRemove hxl ok.distinct he
+              rcases hq' with c | ⟨i0, i1, c0, c1⟩
+              · rw [c]; exact ok.qval_ge e hm
+              · rcases s2.m1_some i0 _ i1 q' c0 c1 e hm with d | d
+                · rw [hxrx] at hne; exact absurd d hne
+                · exact d
+            · intro e he
+              exact ok.owner e (rx_ne_of_mem_swapRemove hxl ok.distinct he).1
 
 end ScionTime.Server
